@@ -114,6 +114,28 @@ func normalize(query string, vars []byte) (res normResult) {
 	return res
 }
 
+// normalizeOnce is the second seam: ONE call of graphql.Request.Normalize with the
+// package's default option set (extract variables, remove fragment definitions,
+// remove unused variables, inline fragment spreads) - what a caller that does not
+// go through ExecutionEngine.Execute gets. The engine's sequence runs the operation
+// walkers twice and thereby repairs whatever a single pass leaves undone; this seam
+// does not. Only idempotence is judged on it.
+func normalizeOnce(query string, vars []byte) (res normResult) {
+	req := &graphql.Request{Query: query}
+	if len(vars) > 0 {
+		req.Variables = append([]byte(nil), vars...)
+	}
+	r, err := req.Normalize(repoSchema)
+	if err != nil || !r.Successful {
+		return normResult{Stage: "Normalize (single call)", Err: errText(err, errsStringer{r.Errors})}
+	}
+	printed, err := astprinter.PrintString(req.Document())
+	if err != nil {
+		return normResult{Stage: "astprinter", Err: err.Error()}
+	}
+	return normResult{Printed: printed, RawVars: append([]byte(nil), req.Variables...), Vars: append([]byte(nil), req.Variables...)}
+}
+
 // remapVars renames the keys of the variables object the way the variables
 // mapper renamed the variables of the operation (mapping: new name -> old name).
 func remapVars(raw []byte, remap map[string]string) ([]byte, error) {
